@@ -74,11 +74,16 @@ ASSUMPTIONS = [
     'logging (log.critical, lazymsg) has an empty body',
 ]
 BOUNDS = {
-    'quick': {'routes': '<= 3 announces + 3 withdraws per family group; IPv4 unicast masks {0,8,16,24,32} (packed 1..5 bytes, +4 with ADD-PATH), '
-                        'IPv6 unicast masks {16,48,128} with two next hops', 'attributes': 'ORIGIN + AS_PATH (+ NEXT_HOP) + one filler (PMSI via '
-                        'Attribute._attribute, or unknown transitive) of 250/255/256 bytes in the symbolic run, any length up to the limit in the legal-size replays',
-              'msg_size': 'symbolic 19..4096 and 19..65535', 'sessions': 'ipv4 only / ipv4+ipv6, ADD-PATH on/off, extended message on/off'},
-    'thorough': {'routes': '<= 6 announces + 6 withdraws', 'attributes': 'fillers 5, 250, 254, 255, 256, 257, 300', 'msg_size': 'same', 'sessions': 'same'},
+    'quick': {'routes': 'IPv4 unicast 3 announces | 3 withdraws | 2+2 (also with ADD-PATH); IPv6 unicast 3 | 2+2 | 2+1 with ADD-PATH, two next hops; '
+                        '15+15 IPv6 /128 with one next hop (MP attributes > 255 bytes); mixed 1+1 IPv4 with 2+1 IPv6; IPv6 routes on an IPv4-only session. '
+                        'Every mask sequence over IPv4 {0,8,16,24,32} (packed 1..5 bytes, +4 with ADD-PATH) and IPv6 {16,48,128} (subsets in the larger units), '
+                        'in wire order (ExaBGP sorts by mask when ADD-PATH is off)',
+              'attributes': 'ORIGIN + AS_PATH (+ NEXT_HOP when IPv4 is announced) + one filler: PMSI (packed by Attribute._attribute) or unknown transitive 99 '
+                            '(GenericAttribute), 250/255/256 bytes in the symbolic run and every length the translation gives (up to the whole message) in the legal-size replays',
+              'msg_size': 'symbolic over 19..4096 (4096 sessions) and len(attributes)..65535 (extended-message sessions)',
+              'sessions': 'ipv4 | ipv4+ipv6, ADD-PATH send/receive on|off, extended message on|off, ASN4'},
+    'thorough': {'routes': 'up to 6 announces + 6 withdraws per family (6, 5+5, 4+4, 6+6 on fewer mask classes), mixed up to 3+3 IPv4 with 3+3 IPv6, three next hops',
+                 'attributes': 'fillers 5, 250, 254, 255, 256, 257, 300', 'msg_size': 'same', 'sessions': 'same'},
 }
 OUTSIDE = [
     'thousands of routes (loop counts are concrete); FlowSpec / EVPN / VPN / labelled NLRI sizes; IPv4 NLRI with an IPv6 next hop (RFC 8950)',
@@ -153,7 +158,7 @@ LEMMA = size_lemma()
 # ----------------------------------------------------------------------------- request builder (harness side, RFC sizes)
 
 NH4 = '192.0.2.1'
-NH6 = ('2001:db8::1', '2001:db8::2')
+NH6 = ('2001:db8::1', '2001:db8::2', '2001:db8::3')
 AS_PATH_VALUE = bytes([2, 2]) + (65000).to_bytes(4, 'big') + (65010).to_bytes(4, 'big')  # RFC 6793: 4-byte ASNs on an ASN4 session
 PATTERN = bytes(range(1, 252)) * 300
 
@@ -239,11 +244,11 @@ def build(ctx, sp):
     for i, m in enumerate(m6a):
         ip = bytes([0x20 + i, 1, 0x0d, 0xb8, i + 1]) + bytes(10) + bytes([i + 1])
         pi, pb = pid(80 - i, i != 1)
-        nh = NH6[i % 2]
+        nh = NH6[i % sp['nhs']]
         ann.append(RoutedNLRI(INET.make_route(AFI.ipv6, SAFI.unicast, ip, m, path_info=pi), IP.from_string(nh)))
         if mp_neg:
             size = O.prefix_size(m)
-            nhb = bytes([0x20, 1, 0x0d, 0xb8]) + bytes(11) + bytes([1 + i % 2])
+            nhb = bytes([0x20, 1, 0x0d, 0xb8]) + bytes(11) + bytes([1 + i % sp['nhs']])
             e_ann.append((2, 1, pb, m, ip[:size], nhb))
             needs.append(('a6', tlv_size(2 + 1 + 1 + 16 + 1 + 1 + size + extra)))  # RFC 4760 3
     for i, m in enumerate(m6w):
@@ -369,6 +374,10 @@ def h_size(ctx, sp):
         ctx.check('requested-attributes', s_or(ok, M != L) if ctx.sym else ok,
                   sig='C09:attributes:%s' % ('announce' if (n4a or n6a) else 'withdraw-only'),
                   info=dict(base, message=i, got={c: (v[0], len(v[1])) for c, v in got.items()}, want={c: (v[0], len(v[1])) for c, v in want_attrs.items()}))
+        if any(code in (O.MP_REACH, O.MP_UNREACH) and len(value) > 255 for flags, code, value in d['attrs']):
+            ctx.cover('mp-attribute-extended-length')
+        if any(code in (O.MP_REACH, O.MP_UNREACH) and len(value) == 256 for flags, code, value in d['attrs']):
+            ctx.cover('mp-attribute-256')
         # ---- content
         for x in d['announce']:
             d_ann.append((x, i, bool(n6w + n6a)))
@@ -428,7 +437,8 @@ def h_size(ctx, sp):
             ctx.check('raise-only-without-room', room < max(mp_sizes), sig='C09:exception:RuntimeError:every-route-fits-alone:%s' % where, info=base)
         elif overflow:
             # the message after a full one cannot even be framed: its length does not fit the 16-bit length field
-            ctx.check('no-exception', False, sig='C09:oversize:carried-nlri-not-rechecked:length-field-overflow', info=base)
+            in_mp = any(s != ['?'] and (s[2] + s[3]) for s in shape) or not any(k in ('a4', 'w4') for k, n in needs)
+            ctx.check('no-exception', False, sig='C09:oversize:%scarried-nlri-not-rechecked:length-field-overflow' % ('mp-' if in_mp else ''), info=base)
         else:
             ctx.check('no-exception', False, sig='C09:exception:%s' % type(exc).__name__, info=base)
     else:
@@ -449,19 +459,22 @@ C4 = (0, 8, 16, 24, 32)
 C6 = (16, 48, 128)
 
 
-def spec(a4=0, w4=0, a6=0, w6=0, mp=True, addpath=False, L=4096, filler='pmsi', fillers=(250, 256), c4=C4, c6=C6):
-    return dict(a4=a4, w4=w4, a6=a6, w6=w6, mp=mp, addpath=addpath, L=L, filler=filler, fillers=tuple(fillers), c4=tuple(c4), c6=tuple(c6))
+def spec(a4=0, w4=0, a6=0, w6=0, mp=True, addpath=False, L=4096, filler='pmsi', fillers=(250, 256), c4=C4, c6=C6, nhs=2):
+    return dict(a4=a4, w4=w4, a6=a6, w6=w6, mp=mp, addpath=addpath, L=L, filler=filler, fillers=tuple(fillers), c4=tuple(c4), c6=tuple(c6), nhs=nhs)
 
 
 def units(tier):
     th = tier == 'thorough'
     us = []
+    kw = dict(max_paths=150000, max_seconds=1100) if th else {}
 
-    def add(name, sp, cover, weight=10, **kw):
+    def add(name, sp, cover, weight=10):
         us.append(Unit('size/' + name, lambda ctx, sp=sp: h_size(ctx, sp), must_cover=cover, weight=weight, **kw))
 
     base_cover = ('split-into-2+', 'no-room', 'complete')
     both = ('extended-length-attr', 'short-length-attr')
+    raises = ('no-room-raise',)
+    mixed = ('mp-and-ipv4-mixed', 'no-room', 'complete')
     small4 = (0, 16, 32)
     add('v4/a3', spec(a4=3, fillers=(250, 255, 256)), base_cover + both, 30)
     add('v4/w3', spec(w4=3, fillers=(255, 256)), base_cover, 20)
@@ -469,8 +482,38 @@ def units(tier):
     add('v4/a2w2-addpath', spec(a4=2, w4=2, addpath=True, fillers=(256,), c4=small4), base_cover, 40)
     add('v4/a3-generic-65535', spec(a4=3, L=65535, filler='generic', fillers=(255, 256), c4=small4), base_cover + both, 20)
     add('v4only/a1w1-mp-dropped', spec(a4=1, w4=1, a6=1, w6=1, mp=False, fillers=(256,), c4=small4, c6=(48,)), ('complete', 'no-room'), 5)
-    add('mp/a3', spec(a6=3, fillers=(255, 256)), base_cover + both + ('no-room-raise',), 20)
-    add('mp/a2w2', spec(a6=2, w6=2, fillers=(256,)), base_cover + ('no-room-raise',), 30)
-    add('mp/a2w1-addpath', spec(a6=2, w6=1, addpath=True, fillers=(256,)), ('no-room', 'complete', 'no-room-raise'), 30)
-    add('mix/a1w1+a2w1', spec(a4=1, w4=1, a6=2, w6=1, fillers=(256,), c4=small4, c6=(16, 128)), ('mp-and-ipv4-mixed', 'no-room', 'complete'), 40)
+    add('mp/a3', spec(a6=3, fillers=(255, 256)), base_cover + both + raises, 20)
+    add('mp/a2w2', spec(a6=2, w6=2, fillers=(256,)), base_cover + raises, 30)
+    add('mp/a2w1-addpath', spec(a6=2, w6=1, addpath=True, fillers=(256,)), ('no-room', 'complete') + raises, 30)
+    add('mp/a15w15-one-nexthop', spec(a6=15, w6=15, fillers=(256,), c6=(128,), nhs=1), base_cover + ('mp-attribute-extended-length',), 10)
+    add('mix/a1w1+a2w1', spec(a4=1, w4=1, a6=2, w6=1, fillers=(256,), c4=small4, c6=(16, 128)), mixed, 40)
+    add('mp/a15-around-256', spec(a6=15, fillers=(256,), c6=(48, 128), nhs=1), base_cover + ('mp-attribute-extended-length', 'mp-attribute-256'), 40)
+    if not th:
+        return us
+    add('v4/a4-all-fillers', spec(a4=4, fillers=(5, 250, 254, 255, 256, 257, 300)), base_cover + both, 300)
+    add('v4/a6-f255', spec(a4=6, fillers=(255,)), base_cover, 300)
+    add('v4/a6-f256', spec(a4=6, fillers=(256,)), base_cover, 300)
+    add('v4/w6', spec(w4=6, fillers=(256,)), base_cover, 300)
+    add('v4/a3w3', spec(a4=3, w4=3, fillers=(256,), c4=(0, 8, 24, 32)), base_cover, 400)
+    add('v4/a6w6', spec(a4=6, w4=6, fillers=(256,), c4=(8, 32)), base_cover, 200)
+    add('v4/a3w2-addpath', spec(a4=3, w4=2, addpath=True, fillers=(256,), c4=(8, 16, 32)), base_cover, 400)
+    add('v4/a4-pmsi-65535', spec(a4=4, L=65535, fillers=(255, 256)), base_cover + both, 100)
+    add('v4/a2w2-addpath-65535', spec(a4=2, w4=2, addpath=True, L=65535, filler='generic', fillers=(256,), c4=small4), base_cover, 60)
+    add('mp/a6', spec(a6=6, fillers=(255, 256)), base_cover + both + raises, 200)
+    add('mp/a4w3', spec(a6=4, w6=3, fillers=(256,)), base_cover + raises, 400)
+    add('mp/a3w3-addpath', spec(a6=3, w6=3, addpath=True, fillers=(256,), c6=(16, 128)), base_cover + raises, 200)
+    add('mp/a3w3-65535', spec(a6=3, w6=3, L=65535, fillers=(256,), c6=(16, 128)), base_cover + raises, 50)
+    add('mp/a3w3-three-nexthops-generic', spec(a6=3, w6=3, filler='generic', fillers=(255, 256), c6=(16, 128), nhs=3), base_cover + raises, 100)
+    add('mix/a2w2+a3w2', spec(a4=2, w4=2, a6=3, w6=2, fillers=(256,), c4=(0, 32), c6=(16, 128)), mixed, 300)
+    add('mix/a1w1+a2w1-addpath', spec(a4=1, w4=1, a6=2, w6=1, addpath=True, fillers=(256,), c4=(0, 32), c6=(16, 128)), mixed, 150)
+    add('mix/a2w1+a2w2-65535', spec(a4=2, w4=1, a6=2, w6=2, L=65535, fillers=(255,), c4=(0, 32), c6=(16, 128)), mixed, 150)
+    add('v4/a6-f250', spec(a4=6, fillers=(250,)), base_cover, 300)
+    add('v4/a6-f257', spec(a4=6, fillers=(257,)), base_cover, 300)
+    add('v4/a4w4', spec(a4=4, w4=4, fillers=(256,), c4=(0, 8, 16, 32)), base_cover, 900)
+    add('v4/a5w5', spec(a4=5, w4=5, fillers=(256,), c4=(8, 16, 32)), base_cover, 900)
+    add('mp/a6w6', spec(a6=6, w6=6, fillers=(256,), c6=(16, 128)), base_cover + raises, 300)
+    add('mp/a6-generic-addpath', spec(a6=6, addpath=True, filler='generic', fillers=(255, 256), c6=(16, 128)), base_cover + both + raises, 300)
+    add('mix/a3w3+a3w3', spec(a4=3, w4=3, a6=3, w6=3, fillers=(256,), c4=(8, 32), c6=(16, 128)), mixed, 700)
+    add('mix/a2w2+a2w2-generic', spec(a4=2, w4=2, a6=2, w6=2, filler='generic', fillers=(255, 256), c4=(0, 32), c6=(16, 128)), mixed, 300)
+    add('v4only/a2w2-mp-dropped-addpath', spec(a4=2, w4=2, a6=2, w6=2, mp=False, addpath=True, fillers=(256,), c4=small4, c6=(48,)), ('complete', 'no-room'), 30)
     return us
